@@ -122,6 +122,9 @@ def install_ctrl_c(ctx: W.RunContext) -> None:
             fire("instr", f"{code.co_filename.split('/schemathesis/')[-1]}:{S.line_of(code, offset)}:{code.co_name}:{kind}")
 
     def block_hook(st, kind) -> None:
+        if st is main and ctx.ctrl_c_fired is not None and "first_wait_after" not in ctx.ctrl_c_fired and kind in ("q_get_wait", "join_wait", "event_wait", "sleep"):
+            # the first time the interrupted consumer gives up the processor voluntarily after the interrupt
+            ctx.ctrl_c_fired["first_wait_after"] = {"kind": kind, "seq": sched.next_seq()}
         if st is not main or not eligible():
             return
         if kind not in ("q_get_wait", "join_wait", "event_wait", "sleep"):
